@@ -53,10 +53,13 @@ def parse_nwchem_reference(text):
 # ------------------------------------------------------------------------------------------------
 # model: list of (element, [shell, ...]) in file order; shell = {"letters": "S"|"P"|...|"SP",
 #        "exps": [token, ...], "cols": [[token per column] per primitive]}
-def _rows(shell, indent, sep):
+def _rows(shell, indent, sep, inner=None):
+    """inner: None, or a line ('' or a comment) inserted after the first primitive row of shells with several primitives."""
     out = []
-    for e, row in zip(shell["exps"], shell["cols"]):
+    for n, (e, row) in enumerate(zip(shell["exps"], shell["cols"])):
         out.append(" " * indent + e + "".join(" " * sep + c for c in row))
+        if inner is not None and n == 0 and len(shell["exps"]) > 1:
+            out.append(inner)
     return out
 
 
@@ -69,7 +72,7 @@ def write_nwchem(model, layout):
             lines.append("#BASIS SET: (%ds) -> [%ds]" % (len(shells), len(shells)))
         for s in shells:
             lines.append(el + " " * layout.get("gap", 4) + s["letters"])
-            lines += _rows(s, layout.get("indent", 4), layout.get("sep", 6))
+            lines += _rows(s, layout.get("indent", 4), layout.get("sep", 6), layout.get("inner"))
             if layout.get("blanks"):
                 lines.append("")
     if layout.get("end", True):
